@@ -1,0 +1,94 @@
+//go:build verif
+
+// Verification contracts (properties C01 and C05; comment-only, read by /verif/govc). No executable code.
+//
+// What is decided here, per function, for every input and - through the rule "lock_havoc" - for every interleaving of
+// other threads that respect the lock discipline of PartitionLog.mu (C41): every fact about a field guarded by l.mu is
+// forgotten at each acquisition of l.mu (Lock, Cond.Wait), so a clause may only rely on what was read or written in the
+// SAME critical section.
+//
+//   prepareFlush   moves the whole buffer into flushingBatches (or leaves everything alone), reports "nothing to do"
+//                  only when the buffer was empty or a flush is in flight
+//   uploadFlush    failure: the in-flight batches go back to the front of the buffer before they are forgotten;
+//                  success: the segment range is recorded only after BOTH uploads succeeded (C06b clauses)
+//   Requeue        puts the batches in front of the buffered ones, in order, and restores the counters
+//   Flush          returns nil only if the artifact it drained was uploaded; publishes (onFlush) either that uploaded
+//                  artifact or the offset read in the critical section of the drain, which found nothing pending
+//   AppendBatch    returns a result only if the artifact it drained (if any) was uploaded; publishes only that artifact
+//   publish        the only place that invokes the onFlush callback: inside one critical section of publishMu it checks
+//                  that the offset is not below the last one delivered, records it and calls onFlush - so the sequence
+//                  of offsets handed to the callback (and by it to the metadata store) never decreases
+
+package storage
+
+//@ func (b *WriteBuffer) Requeue
+//@   only_for C01, C05
+//@   requires base(batches) != base(b.batches) && len(batches) <= 1073741824 && len(b.batches) <= 1073741824
+//@   ensures [C01.requeue_puts_batches_in_front] len(b.batches) == old(len(batches)) + old(len(b.batches)) && (forall i Int :: {b.batches[i]} 0 <= i && i < old(len(batches)) ==> b.batches[i] == old(batches[i]))
+//@   ensures [C01.requeue_keeps_later_batches_behind] forall i Int :: {b.batches[i]} old(len(batches)) <= i && i < len(b.batches) ==> b.batches[i] == old(b.batches[i - len(batches)])
+//@   loop 1 invariant -1 <= rangeindex && rangeindex < len(batches)
+
+//@ func (l *PartitionLog) prepareFlush
+//@   only_for C01, C05
+//@   requires l.buffer != nil
+//@   at BuildSegment#1 havoc
+//@   ghost gDrained []RecordBatch = nil
+//@   at Drain#1 after set gDrained = ret0
+//@   ensures [C01.prepare_keeps_every_drained_batch_in_flight] err == nil && result0 != nil ==> l.flushing && sameSlice(l.flushingBatches, gDrained) && !old(l.flushing)
+//@   ensures [C01.prepare_reports_nothing_only_when_nothing_is_pending] err == nil && result0 == nil ==> (old(l.flushing) || old(len(l.buffer.batches)) == 0) && l.flushing == old(l.flushing) && sameSlice(l.flushingBatches, old(l.flushingBatches))
+
+//@ func (l *PartitionLog) uploadFlush
+//@   only_for C01, C05
+//@   lock_havoc mu: nextOffset, segments, flushing, flushingBatches
+//@   ghost gRequeued bool = false
+//@   at Requeue#1 before set gRequeued = sameSlice(arg0, l.flushingBatches)
+//@   at Requeue#1 havoc
+//@   at startPrefetch#1 before stop [C01, C05]
+//@   ensures [C01.failed_upload_requeues_the_in_flight_batches] !isNilIface(result) ==> gRequeued && !l.flushing && len(l.flushingBatches) == 0
+
+//@ func (l *PartitionLog) Flush
+//@   only_for C01, C05
+//@   lock_havoc mu: nextOffset, segments, flushing, flushingBatches
+//@   loop 1 invariant true
+//@   ghost gArt *SegmentArtifact = nil
+//@   ghost gNext int64 = 0
+//@   ghost gUploaded bool = false
+//@   ghost gUpErr error = nil
+//@   at prepareFlush#1 before assert [C01.flush_drains_only_when_no_flush_is_in_flight] !l.flushing
+//@   at prepareFlush#1 havoc
+//@   at prepareFlush#1 after set gArt = ret0
+//@   at prepareFlush#1 after set gNext = l.nextOffset
+//@   at uploadFlush#1 before assert [C01.flush_uploads_the_artifact_it_drained] arg1 == gArt && gArt != nil
+//@   at uploadFlush#1 havoc
+//@   at uploadFlush#1 after set gUploaded = true
+//@   at uploadFlush#1 after set gUpErr = ret0
+//@   at publish#1 before assert [C05.flush_publishes_the_uploaded_artifact_or_the_offset_read_with_the_drain] (gArt != nil ==> arg1 == gArt && gUploaded && isNilIface(gUpErr)) && (gArt == nil && arg1 != nil ==> arg1.LastOffset == int64(gNext - 1))
+//@   at publish#1 havoc
+//@   ensures [C01.flush_success_means_the_drained_artifact_was_uploaded] isNilIface(result) ==> gArt == nil || (gUploaded && isNilIface(gUpErr))
+
+// AppendBatch (size-triggered flush): sequential reading - its clauses speak about locals only.
+//@ func (l *PartitionLog) AppendBatch
+//@   only_for C01, C05
+//@   ghost gArt *SegmentArtifact = nil
+//@   ghost gUploaded bool = false
+//@   ghost gUpErr error = nil
+//@   at prepareFlush#1 havoc
+//@   at prepareFlush#1 after set gArt = ret0
+//@   at uploadFlush#1 before assert [C01.append_uploads_the_artifact_it_drained] arg1 == gArt && gArt != nil
+//@   at uploadFlush#1 havoc
+//@   at uploadFlush#1 after set gUploaded = true
+//@   at uploadFlush#1 after set gUpErr = ret0
+//@   at publish#1 before assert [C05.append_publishes_only_the_uploaded_artifact] arg1 == gArt && gUploaded && isNilIface(gUpErr)
+//@   at publish#1 havoc
+//@   ensures [C01.append_success_means_the_drained_artifact_was_uploaded] isNilIface(err) ==> gArt == nil || (gUploaded && isNilIface(gUpErr))
+
+//@ func (l *PartitionLog) publish
+//@   only_for C01, C05
+//@   lock_havoc publishMu: lastPublished
+//@   nullable target
+//@   ghost gPrev int64 = 0
+//@   at Lock#1 after set gPrev = l.lastPublished
+//@   at onFlush#1 before assert [C05.published_offsets_never_decrease] arg1 == target && target.LastOffset >= gPrev && l.lastPublished == target.LastOffset
+//@   at onFlush#1 havoc
+//@   same_critical_section [C05.callback_runs_inside_the_publish_critical_section] publishMu: onFlush
+//@   field_called_only_here [C05.flush_callback_is_invoked_only_by_publish] PartitionLog.onFlush
